@@ -291,6 +291,33 @@ func rangeFuncPanic() {
 	}
 }
 
+// the only defers of these functions are registered in range-over-func bodies and change the named result
+func rfNamed1() (r int) {
+	for range seqN(2) {
+		defer func() { r += 10 }()
+	}
+	return 1
+}
+
+func rfNamed2() (r int) {
+	for i := range seqN(3) {
+		defer func() { r = r*10 + i }()
+		if i == 1 {
+			return 7
+		}
+	}
+	return 1
+}
+
+// the same with a defer of the function itself
+func rfNamed3() (r int) {
+	defer func() { r += 100 }()
+	for range seqN(2) {
+		defer func() { r += 10 }()
+	}
+	return 1
+}
+
 func runtimeFault() (ok bool) {
 	defer func() { ok = recover() != nil }()
 	var m map[string]int
@@ -335,6 +362,8 @@ func main() {
 	wrap("rangeFuncDefers0", func() { rangeFuncDefers(0) })
 	wrap("rangeFuncNested", rangeFuncNested)
 	wrap("rangeFuncPanic", rangeFuncPanic)
+	wrap("rfNamedWithOwnDefer", func() { println("rfNamed3", rfNamed3()) })
+	wrap("rfNamedOnly", func() { println("rfNamed", rfNamed1(), rfNamed2()) })
 	wrap("runtimeFault", func() { println("runtimeFault", runtimeFault()) })
 	wrap("goexit", goexitProbe)
 }
